@@ -44,7 +44,7 @@ def _params(tier):
     return out
 
 
-@harness(P, params=_params, max_steps=1500000,
+@harness(P, per_job=True, params=_params, max_steps=1500000,
          bounds="nonce mode; plaintext lengths {0,1,15,16,17,31,32,33,127,128,129,255,256,257} (+{65519,65520,65535,65536,70000} thorough) with symbolic content (first/last 17 octets "
          "above 48 bytes); 4 KDF hashes; 64 symbolic root-key bytes; clock symbolic inside windows that contain an L2, an L1 and an L0 boundary (+- 2 ticks) and one inside an interval "
          "(thorough: 80 h wide windows in 4 epochs and one whole L0 period = every (L1,L2)); both blob layouts; sync and async API; decryption through the same KeyCache object or through a fresh one loaded with the same root key; 5 SID shapes (1..15 sub-authorities, 0 and 2^32-1)",
